@@ -335,11 +335,12 @@ def adopt_real_locks(ns, root):
     (identity preserved, so a lock shared between two parts stays shared): class attributes are shadowed on the
     instance, module globals are swapped and put back by restore_module_locks()."""
     Fake = ns.rwlock.threading.Lock
+    FakeR = ns.rwlock.threading.RLock
     memo = {}
 
     def fake_for(real):
         if id(real) not in memo:
-            memo[id(real)] = Fake()
+            memo[id(real)] = FakeR() if isinstance(real, _REAL_LOCK_TYPES[1]) else Fake()
         return memo[id(real)]
 
     objs, seen = [root], set()
